@@ -59,7 +59,9 @@ impl Ctx {
             Some("thorough") => Tier::Thorough,
             _ => Tier::Quick,
         };
-        let mut only_key = std::env::var("NIMC_ONLY_KEY").ok().filter(|s| !s.is_empty());
+        let mut only_key = std::env::var("NIMC_ONLY_KEY")
+            .ok()
+            .filter(|s| !s.is_empty());
         let mut i = 1;
         while i < args.len() {
             match args[i].as_str() {
@@ -169,7 +171,10 @@ impl JobOut {
         *self.counters.entry(name.to_string()).or_insert(0) += by;
     }
     pub fn maximum(&mut self, name: &str, v: f64) {
-        let e = self.maxima.entry(name.to_string()).or_insert(f64::NEG_INFINITY);
+        let e = self
+            .maxima
+            .entry(name.to_string())
+            .or_insert(f64::NEG_INFINITY);
         if v > *e || v.is_nan() {
             *e = v;
         }
@@ -456,7 +461,10 @@ pub fn finish(ctx: &Ctx, sum: Summary, meta: Meta) -> i32 {
 
     let exhaustive = !sum.capped && ctx.only_key.is_none();
     let mut cov = vec![
-        ("evaluations".to_string(), Json::Int(sum.total.evals as i128)),
+        (
+            "evaluations".to_string(),
+            Json::Int(sum.total.evals as i128),
+        ),
         (
             "distinct_nontrivial".to_string(),
             Json::Int(sum.total.nontrivial as i128),
@@ -640,6 +648,25 @@ pub fn main_with(id: &'static str, body: fn(&Ctx) -> (Summary, Meta)) -> ! {
             let m = LAST_PANIC.with(|p| p.borrow().clone());
             eprintln!("MACHINERY-ERROR property={id} {m}");
             std::process::exit(2)
+        }
+    }
+}
+
+/// Run an exact-rational computation; `None` when it left the i128 range (the caller then
+/// falls back to double-double arithmetic). Any other panic is re-raised.
+pub fn try_exact<R>(f: impl FnOnce() -> R) -> Option<R> {
+    QUIET.with(|q| q.set(q.get() + 1));
+    let r = catch_unwind(AssertUnwindSafe(f));
+    QUIET.with(|q| q.set(q.get() - 1));
+    match r {
+        Ok(v) => Some(v),
+        Err(p) => {
+            let m = LAST_PANIC.with(|p| p.borrow().clone());
+            if m.contains(crate::rat::RAT_OVERFLOW) {
+                None
+            } else {
+                std::panic::resume_unwind(p)
+            }
         }
     }
 }
